@@ -5,12 +5,13 @@ from __future__ import annotations
 import ast
 
 from ..astutil import (
-    calls_in, calls_named, call_name, dotted, enclosing_try, lexical_guards, guard_atoms,
+    calls_in, calls_named, call_name, dotted, enclosing_stmt, enclosing_try, lexical_guards, guard_atoms,
     name_stores, unparse, walk_local, walk_stmts, raises_of,
 )
 from ..oracles import python_mutators
 from ..cfg import no_exc
-from ..report import Registry, sub
+from ..report import Registry, chain, sub
+from ._helpers_rob_h1 import expand_properties, implied, nform, resolve_local
 
 R = Registry(
     "C54",
@@ -136,23 +137,26 @@ def _dupfree(expr, fn, cls, ctx, depth=0) -> bool:
     if isinstance(expr, ast.Name):
         if expr.id == "self":
             return True  # iterating the OrderedSet itself
-        # isinstance(x, set/dict) lexical guard
-        pm = fn.module.parents()
-        for t, pol in lexical_guards(pm, expr):
-            if not pol:
-                continue
-            disj = t.values if isinstance(t, ast.BoolOp) and isinstance(t.op, ast.Or) else [t]
+        # the branch outcomes under which the expression is evaluated say that it is a set/dict: lexical guards and the
+        # outcomes that dominate it on the CFG (early return, inverted if/else), `or` / De Morgan / `not` normalised
+        pm = fn.module.parents() if not hasattr(fn, "pm") else fn.pm
+        guards = list(lexical_guards(pm, expr))
+        st = enclosing_stmt(pm, expr)
+        if st is not None:
+            g = ctx.cfg(fn)
+            for i in g.nodes_for(st)[:1]:
+                guards += g.edge_guards(i)
 
-            def is_set_test(e):
-                if not (isinstance(e, ast.Call) and call_name(e) == "isinstance" and len(e.args) == 2):
-                    return False
-                if unparse(e.args[0]) != expr.id:
-                    return False
-                kinds = e.args[1].elts if isinstance(e.args[1], ast.Tuple) else [e.args[1]]
-                return all(unparse(k) in ("set", "dict", "frozenset") for k in kinds)
+        def is_set_test(e):
+            if not (isinstance(e, ast.Call) and call_name(e) == "isinstance" and len(e.args) == 2):
+                return False
+            if unparse(e.args[0]) != expr.id:
+                return False
+            kinds = e.args[1].elts if isinstance(e.args[1], ast.Tuple) else [e.args[1]]
+            return all(unparse(k) in ("set", "dict", "frozenset") for k in kinds)
 
-            if all(is_set_test(e) for e in disj):
-                return True
+        if any(implied(t, pol, is_set_test) for t, pol in guards):
+            return True
         # parameter of a private constructor: check every call site in the class
         if expr.id in fn.params and fn.name.startswith("_") and not fn.name.startswith("__"):
             pos = fn.params.index(expr.id) - 1
@@ -164,7 +168,10 @@ def _dupfree(expr, fn, cls, ctx, depth=0) -> bool:
             return bool(sites) and all(_dupfree(a, m, cls, ctx, depth + 1) for m, a in sites)
         binds = [(v, st) for n, v, st in name_stores(fn.node) if n == expr.id]
         if binds and all(v is not None and _dupfree(v, fn, cls, ctx, depth + 1) for v, st in binds):
-            return True
+            # a local list that is filled afterwards is what its fill makes it: `x = []` + `for a in SRC: [if C:]
+            # x.append(a)` is the comprehension `[a for a in SRC if C]`; any other growth is not understood as
+            # duplicate-free
+            return _fills_dupfree(expr.id, fn, cls, ctx, depth)
         return False
     if isinstance(expr, ast.IfExp):
         return _dupfree(expr.body, fn, cls, ctx, depth + 1) and _dupfree(expr.orelse, fn, cls, ctx, depth + 1)
@@ -179,6 +186,37 @@ def _dupfree(expr, fn, cls, ctx, depth=0) -> bool:
         ctx.require(disjoint, f"{fn.key}: cannot decide whether the operands of `{unparse(expr)}` are disjoint")
         return True
     return False
+
+
+_GROW = {"append", "extend", "insert", "__iadd__", "__setitem__"}
+
+
+def _fills_dupfree(name, fn, cls, ctx, depth) -> bool:
+    """every statement that grows the local list `name` in fn is the loop form of an identity comprehension over a
+    duplicate-free source: `for a in SRC: [if C:] name.append(a)`, the loop not nested in another loop"""
+    pm = fn.module.parents() if not hasattr(fn, "pm") else fn.pm
+    for n in walk_local(fn.node):
+        if isinstance(n, ast.AugAssign) and isinstance(n.target, ast.Name) and n.target.id == name:
+            return False
+        if isinstance(n, ast.Subscript) and isinstance(n.value, ast.Name) and n.value.id == name and isinstance(n.ctx, ast.Store):
+            return False
+        if not (isinstance(n, ast.Call) and isinstance(n.func, ast.Attribute) and isinstance(n.func.value, ast.Name)
+                and n.func.value.id == name and n.func.attr in _GROW):
+            continue
+        if n.func.attr != "append" or len(n.args) != 1 or not isinstance(n.args[0], ast.Name):
+            return False
+        loops = []
+        cur = pm.get(n)
+        while cur is not None and cur is not fn.node:
+            if isinstance(cur, (ast.For, ast.While, ast.AsyncFor)):
+                loops.append(cur)
+            cur = pm.get(cur)
+        if len(loops) != 1 or not isinstance(loops[0], ast.For) or not isinstance(loops[0].target, ast.Name) \
+                or loops[0].target.id != n.args[0].id:
+            return False
+        if not _dupfree(loops[0].iter, fn, cls, ctx, depth + 1):
+            return False
+    return True
 
 
 def _is_self_members(e) -> bool:
@@ -283,7 +321,9 @@ def r2(ctx):
                 d = dotted(c.func) or ""
                 if d.endswith("._list.append") or d.endswith("._list.insert"):
                     elem = c.args[-1]
-                    atoms = guard_atoms(lexical_guards(pm, st, stop=f.node))
+                    gf = ctx.cfg(f)
+                    atoms = guard_atoms(lexical_guards(pm, st, stop=f.node)) + [a for i in gf.nodes_for(st)[:1]
+                                                                               for a in guard_atoms(gf.edge_guards(i))]
                     want = f"{unparse(elem)} in self"
                     good = (want, False) in atoms
                     ctx.check(good, f"{CY}::OrderedSet.{name}:{d.rsplit('.',1)[-1]}",
@@ -369,7 +409,10 @@ def r3(ctx):
         desc="LRUCache._manage_size: non-blocking acquire, release on every exit after acquisition, "
              "trim loop bound, LRU victims; __getitem__/__setitem__ counter/value indices")
 def r4(ctx):
-    f = ctx.func(f"{COLL}::LRUCache._manage_size")
+    # normal form: an extracted `self._discard_least_recent()` is read where it is called (inside the loop, inside the
+    # try/finally that holds the mutex); `acquired = self._mutex.acquire(False)` / `if not acquired:` is read as the test
+    lru = ctx.index.cls(f"{COLL}::LRUCache")
+    f = nform(ctx, ctx.func(f"{COLL}::LRUCache._manage_size"), keep={"_inc_counter"}, temps=True)
     g = ctx.cfg(f)
     key = f.key
     acq = g.find_calls("_mutex.acquire")
@@ -400,7 +443,7 @@ def r4(ctx):
     # (d) loop bound and victim selection
     loops = [n for n in walk_local(f.node) if isinstance(n, ast.While)]
     ctx.require(loops, "no trimming while-loop in _manage_size")
-    t = loops[0].test
+    t = expand_properties(ctx, lru, loops[0].test)        # `self.size_threshold` is what the property returns
     good = (
         isinstance(t, ast.Compare) and len(t.ops) == 1 and isinstance(t.ops[0], ast.Gt)
         and unparse(t.left).replace(" ", "") in ("len(self)", "len(self._data)")
@@ -413,22 +456,25 @@ def r4(ctx):
     rev = kw.get("reverse", "False") == "True"
     keyidx = kw.get("key", "")
     # the slice that is deleted
-    fors = [n for n in walk_local(f.node) if isinstance(n, ast.For) and isinstance(n.iter, ast.Subscript)]
+    fors = [(n, resolve_local(f.node, n.iter)) for n in walk_local(f.node) if isinstance(n, ast.For)]
+    fors = [(n, it) for n, it in fors if isinstance(it, ast.Subscript)]
     ctx.require(fors, "no slice iteration over sorted victims")
-    sl = fors[0].iter.slice
+    victims = fors[0][1]
+    fors = [n for n, _ in fors]
+    sl = victims.slice
     tail = isinstance(sl, ast.Slice) and sl.lower is not None and sl.upper is None
     head = isinstance(sl, ast.Slice) and sl.lower is None and sl.upper is not None
     # most-recent-first (reverse=True) => delete the tail; ascending => delete the head
     consistent = (rev and tail) or ((not rev) and head)
     ctx.check(consistent and "itemgetter(2)" in keyidx, key + ":victims",
-              f"victim slice `{unparse(fors[0].iter)}` with reverse={rev}, key={keyidx} does not select least-recently-used entries",
+              f"victim slice `{unparse(victims)}` with reverse={rev}, key={keyidx} does not select least-recently-used entries",
               f"sorted by usage counter reverse={rev}, deletes {'tail' if tail else 'head'}", f.loc)
     dl = [n for n in walk_local(fors[0]) if isinstance(n, ast.Delete)]
     okdel = dl and unparse(dl[0].targets[0]).replace(" ", "") == f"self._data[{fors[0].target.id}[0]]"
     ctx.check(bool(okdel), key + ":delete-key", "victim is not deleted by its own key (item[0])", "del self._data[item[0]]", f.loc)
     # (e) accessors: structural, on the CFG of each accessor (no local names are assumed)
     for m in ("__getitem__", "get"):
-        fm = ctx.func(f"{COLL}::LRUCache.{m}")
+        fm = nform(ctx, ctx.func(f"{COLL}::LRUCache.{m}"), keep=_LRU_KEEP, alias=None)
         ctx.functions_analysed.add(fm.key)
         a = _LruAccessor(ctx, fm)
         value_returns = [n for n in a.returns if a.is_field(a.g.node(n).stmt.value, 1)]
@@ -445,7 +491,7 @@ def r4(ctx):
                   f"{m} can return the value of `{a.key}` without giving that entry a new usage counter "
                   f"(the read does not count as a use for eviction)",
                   "every return of the stored value is preceded by a counter bump of the same entry", fm.loc, w)
-    fs = ctx.func(f"{COLL}::LRUCache.__setitem__")
+    fs = nform(ctx, ctx.func(f"{COLL}::LRUCache.__setitem__"), keep=_LRU_KEEP, alias=None)
     ctx.functions_analysed.add(fs.key)
     a = _LruAccessor(ctx, fs)
     ctx.require(len(fs.params) == 3, "LRUCache.__setitem__ signature not understood")
@@ -482,6 +528,9 @@ def r4(ctx):
     ctx.check(w is None, fs.key + ":trim",
               "a path adds an entry and leaves __setitem__ without _manage_size()",
               "every store of a new entry is followed by _manage_size()", fs.loc, w)
+
+
+_LRU_KEEP = {"_manage_size", "_inc_counter"}
 
 
 class _LruAccessor:
